@@ -1,0 +1,13 @@
+//go:build !verif
+// +build !verif
+
+package stick
+
+import (
+	"io"
+
+	"github.com/tyler-sommer/stick/parse"
+)
+
+func verifExecStep(n parse.Node)                                   {}
+func verifExecEnd(s *state, name string, out io.Writer, err error) {}
